@@ -585,7 +585,7 @@ class IOWorld(Machine):
                 else:
                     err = float(np.abs(px.astype(float) / 255.0 - data).max())
                     self.ctx.err("float_image_levels", err * 255.0)
-                    if err >= 1.0 / 255.0:
+                    if not (err < 1.0 / 255.0):
                         bad = "float: changed by %.3f quantisation levels" % (err * 255.0)
             else:
                 exp = data.astype(np.uint8) * 255
